@@ -251,6 +251,8 @@ func (l *memoryBlockList) Allocate(size int, alignment uint, createInfo *Allocat
 				if freeErr != nil {
 					panic(fmt.Sprintf("unexpected error when freeing an allocation that was created as part of a failed allocation: %+v", err))
 				}
+				// The caller's object is unallocated again and can be reused
+				allocations[allocIndex].memory = nil
 			}
 		}
 	}()
